@@ -15,7 +15,7 @@ import (
 
 // C17 — truncated or ill-formed expressions are rejected by Compile.
 
-const ruleC17 = "rapid x exhaustive positions: a valid expression from the well-typed generators (node-set, boolean, arithmetic, string, regex fragments; verified to be accepted, else the generator is at fault and the check fails loudly) or, one time in six, from the unconstrained generator (kept when Compile accepts it), rendered to a token stream; then EVERY applicable position of every damage operator of the statement: cut after a binary operator; after a '/' that follows a step or after '//'; after '[', '(', an opening quote, a comma; delete one ']', ')', closing quote; rename a function to an unknown name; remove required arguments (per a table of XPath's required arities; optional arguments stay optional); replace an axis name by an unknown one; malform a qualified name (p:, p:q:r, :q, 'p :q', 'p: q', p<tab>:<tab>q). Literals contain no quote characters and one quote style per expression, so a deleted quote always leaves an odd count. Oracle: Compile(damaged) returns an error (and no expression, no panic). A lone leading '/' is never cut after ('/' is a valid expression). Non-trivial: every damaged string counts once, distinct by text; labels give the count per damage class."
+const ruleC17 = "rapid x exhaustive positions: a valid expression from the well-typed generators (node-set, boolean, arithmetic, string, regex fragments; verified to be accepted, else the generator is at fault and the check fails loudly) or, one time in six, from the unconstrained generator (kept when Compile accepts it), rendered to a token stream; then EVERY applicable position of every damage operator of the statement: cut after a binary operator; after a '/' that follows a step or after '//'; after '[', '(', an opening quote, a comma; delete one ']', ')', closing quote; rename a function to an unknown name; remove required arguments (per a table of XPath's required arities; optional arguments stay optional); replace an axis name by an unknown one; malform a qualified name (p:, p:q:r, :q, 'p :q', 'p: q', p<tab>:<tab>q). Literals contain no quote characters and one quote style per expression, so a deleted quote always leaves an odd count. Oracle: Compile(damaged) returns an error (and no expression, no panic), and so does a second Compile of the same text right after it. A lone leading '/' is never cut after ('/' is a valid expression). Non-trivial: every damaged string counts once, distinct by text; labels give the count per damage class."
 
 var uC17 = harness.NewUnit("C17", "rapid-damaged-expressions", ruleC17)
 
@@ -32,6 +32,14 @@ func oracleC17(l *harness.Live) *harness.Failure {
 		cls, _ := l.Params["damage"].(string)
 		orig, _ := l.Params["original"].(string)
 		return harness.Failf("Compile returns an error", "expression accepted", "damage %q applied to %q gives %q, which must be rejected", cls, orig, l.Expr)
+	}
+	// and again, right after the rejection: a text that was rejected stays rejected
+	e2, err2, pan2 := harness.Compile(l.Expr, nil, false)
+	if pan2 != nil {
+		return harness.Failf("an error", pan2.String(), "the second Compile of a damaged expression panicked")
+	}
+	if err2 == nil || e2 != nil {
+		return harness.Failf("Compile returns an error again", "expression accepted", "%q was rejected by the first Compile and accepted by the second", l.Expr)
 	}
 	return nil
 }
